@@ -107,3 +107,18 @@ CHECKS["C19"] = {
     "design_ref": "DESIGN.md section 5 (C19)",
     "note": "Content sizes are five representative 64-bit values, not all 2^64.",
 }
+
+_FRAME_TECH = ("TLA+ frame-format specification (LZ4Frame.tla: an executable parser/encoder of the frame and legacy formats over "
+               "XXH32.tla and LZ4Block.tla) and Writer.tla; TLC model-checks parser/encoder inversion and the Writer's block cutting; "
+               "recorded executions are judged by TLC trace validation")
+CHECKS["C09"] = {
+    "technique": _FRAME_TECH + " (LZ4Frame_Trace_C09 on the emitted bytes, Writer_Trace on the call/sink-call history)",
+    "text": "Every frame emitted for the option vectors x input classes x entry points of the run is parsed by TLC with ParseStrict "
+            "(magic, version 01, reserved bits, header checksum, configured content size, block sizes within the declared maximum, "
+            "block checksums over the stored bytes, end mark, content checksum, decoded content = input; legacy: plain sizes, 8 MiB "
+            "per block) - by TLC itself for frames up to 360 bytes, and through the reference parser's field summary above that, the "
+            "reference parser being re-validated against the TLA+ text on small frames and mutants in the same run. The same runs "
+            "are accepted by Writer_Trace, which binds each public call's sink-call count and the final block lengths to Writer.tla.",
+    "design_ref": "DESIGN.md section 5 (C09)",
+    "note": "CompressingReader and lz4c outputs are judged by the same predicate under C18 / C20.",
+}
